@@ -362,6 +362,12 @@ class Negative(Term):
     def is_aggregate(self) -> bool | None:  # type:ignore[override]
         return self.term.is_aggregate
 
+    @builder
+    def replace_table(  # type:ignore[return]
+        self, current_table: "Table" | None, new_table: "Table" | None
+    ) -> "Self":
+        self.term = self.term.replace_table(current_table, new_table)
+
     def get_sql(self, ctx: SqlContext) -> str:
         return "-{term}".format(term=self.term.get_sql(ctx.copy(with_alias=False)))
 
@@ -534,6 +540,12 @@ class Values(Term):
     def nodes_(self) -> Iterator[NodeT]:
         yield self  # type:ignore[misc]
         yield from self.field.nodes_()
+
+    @builder
+    def replace_table(  # type:ignore[return]
+        self, current_table: "Table" | None, new_table: "Table" | None
+    ) -> "Self":
+        self.field = self.field.replace_table(current_table, new_table)
 
     def get_sql(self, ctx: SqlContext) -> str:
         return "VALUES({value})".format(value=self.field.get_sql(ctx.copy(with_alias=False)))
@@ -980,6 +992,14 @@ class BetweenCriterion(RangeCriterion):
 
 
 class PeriodCriterion(RangeCriterion):
+    @builder
+    def replace_table(  # type:ignore[return]
+        self, current_table: "Table" | None, new_table: "Table" | None
+    ) -> "Self":
+        self.term = self.term.replace_table(current_table, new_table)
+        self.start = self.start.replace_table(current_table, new_table)
+        self.end = self.end.replace_table(current_table, new_table)
+
     def get_sql(self, ctx: SqlContext) -> str:
         operand_ctx = ctx.copy(with_alias=False)
         sql = "{term} FROM {start} TO {end}".format(
@@ -1016,6 +1036,7 @@ class BitwiseAndCriterion(Criterion):
             A copy of the criterion with the tables replaced.
         """
         self.term = self.term.replace_table(current_table, new_table)
+        self.value = self.value.replace_table(current_table, new_table)
 
     def get_sql(self, ctx: SqlContext) -> str:
         operand_ctx = ctx.copy(with_alias=False)
@@ -1333,6 +1354,12 @@ class All(Criterion):
         yield self  # type:ignore[misc]
         yield from self.term.nodes_()
 
+    @builder
+    def replace_table(  # type:ignore[return]
+        self, current_table: "Table" | None, new_table: "Table" | None
+    ) -> "Self":
+        self.term = self.term.replace_table(current_table, new_table)
+
     def get_sql(self, ctx: SqlContext) -> str:
         sql = "{term} ALL".format(term=self.term.get_sql(ctx.copy(with_alias=False)))
         return format_alias_sql(sql, self.alias, ctx)
@@ -1453,6 +1480,13 @@ class AggregateFunction(Function):
         self._include_filter = True
         self._filters = [*self._filters, *filters]
 
+    @builder
+    def replace_table(  # type:ignore[return]
+        self, current_table: "Table" | None, new_table: "Table" | None
+    ) -> "Self":
+        self.args = [param.replace_table(current_table, new_table) for param in self.args]
+        self._filters = [f.replace_table(current_table, new_table) for f in self._filters]
+
     def get_filter_sql(self, ctx: SqlContext) -> str:  # type:ignore[return]
         if self._include_filter:
             filter_ctx = ctx.copy(with_alias=False)
@@ -1490,6 +1524,21 @@ class AnalyticFunction(AggregateFunction):
         for term, _ in self._orderbys:
             if isinstance(term, Node):
                 yield from term.nodes_()
+
+    @builder
+    def replace_table(  # type:ignore[return]
+        self, current_table: "Table" | None, new_table: "Table" | None
+    ) -> "Self":
+        self.args = [param.replace_table(current_table, new_table) for param in self.args]
+        self._filters = [f.replace_table(current_table, new_table) for f in self._filters]
+        self._partition = [
+            p.replace_table(current_table, new_table) if isinstance(p, Node) else p
+            for p in self._partition
+        ]
+        self._orderbys = [
+            (t.replace_table(current_table, new_table) if isinstance(t, Node) else t, o)
+            for t, o in self._orderbys
+        ]
 
     @builder
     def over(self, *terms: Any) -> "Self":  # type:ignore[return]
@@ -1771,6 +1820,12 @@ class AtTimezone(Term):
     def nodes_(self) -> Iterator[NodeT]:
         yield self  # type:ignore[misc]
         yield from self.field.nodes_()
+
+    @builder
+    def replace_table(  # type:ignore[return]
+        self, current_table: "Table" | None, new_table: "Table" | None
+    ) -> "Self":
+        self.field = self.field.replace_table(current_table, new_table)
 
     def get_sql(self, ctx: SqlContext) -> str:
         sql = "{name} AT TIME ZONE {interval}'{zone}'".format(
